@@ -46,14 +46,17 @@ type caseSpec struct {
 }
 
 type kindDef struct {
-	typ reflect.Type
-	emb bool
+	typ      reflect.Type
+	emb      bool
+	tagsOnly bool // C16: only the tag-keyed routes are in the Inverse domain (the tag of one member names another member)
 	val func(v string) any // nil result means the zero value of typ
 }
 
 var fixedTime = time.Date(2021, 3, 4, 5, 6, 7, 123456789, time.UTC)
 
 func ip(i int) *int { return &i }
+
+func f32p(f float32) *float32 { return &f }
 
 var kinds = map[string]kindDef{
 	"bool":   {typ: reflect.TypeOf(false), val: func(v string) any { return v != "z" }},
@@ -113,6 +116,43 @@ var kinds = map[string]kindDef{
 	"E4": {typ: reflect.TypeOf(enctypes.E4{}), emb: true, val: func(v string) any {
 		return pick(v, enctypes.E4{}, enctypes.E4{Ha: 11, Hb: "h", E3: enctypes.E3{Ga: 5, Gb: 6, Gc: true, Gd: 2.5, Ge: 9}, Hz: true},
 			enctypes.E4{Ha: 11, E3: enctypes.E3{Gb: 6, Gd: 2.5}})
+	}},
+	// float32 values that are not dyadic: the shortest float32 text (1.1) differs from the float64 expansion (1.100000023841858)
+	"float32":  {typ: reflect.TypeOf(float32(0)), val: func(v string) any { return pick(v, float32(0), float32(1.1), float32(-0.3)) }},
+	"*float32": {typ: reflect.TypeOf((*float32)(nil)), val: func(v string) any { return pick(v, (*float32)(nil), f32p(98.6), f32p(0)) }},
+	"[]float32": {typ: reflect.TypeOf([]float32(nil)), val: func(v string) any {
+		return pick(v, []float32(nil), []float32{1.1, 98.6, -0.3, 3.4e38, 1e-7}, []float32{})
+	}},
+	"[2]float32": {typ: reflect.TypeOf([2]float32{}), val: func(v string) any { return pick(v, [2]float32{}, [2]float32{1.1, 1e-7}, [2]float32{98.6, 0}) }},
+	"map[string]float32": {typ: reflect.TypeOf(map[string]float32(nil)), val: func(v string) any {
+		return pick(v, map[string]float32(nil), map[string]float32{"a": 1.1, "b": 3.4e38, "z": 0}, map[string]float32{})
+	}},
+	"[]anyF": {typ: reflect.TypeOf([]any(nil)), val: func(v string) any {
+		return pick(v, []any(nil), []any{float32(1.1), float32(98.6), []any{float32(-0.3)}}, []any{})
+	}},
+	// a string member longer than the default WriteLimit (1024) of the io.Writer entry points
+	"lstring": {typ: reflect.TypeOf(""), val: func(v string) any { return pick(v, "", strings.Repeat("long-string/", 100), "abc") }},
+	// []any (also as the top-level target) holding user struct pointers identified through the create key, directly and nested
+	"[]anyP": {typ: reflect.TypeOf([]any(nil)), val: func(v string) any {
+		return pick(v, []any(nil), []any{&enctypes.S1{Sa: 3, Sb: "x"}, []any{&enctypes.T{X: 4, Name: "t"}, "s"}, map[string]any{"k": &enctypes.S1{Sa: 5, Sb: "y"}}},
+			[]any{&enctypes.S1{}})
+	}},
+	"L1": {typ: reflect.TypeOf(enctypes.L1{}), val: func(v string) any {
+		return pick(v, enctypes.L1{}, enctypes.L1{
+			Items: []any{&enctypes.S1{Sa: 3, Sb: "x"}, []any{&enctypes.T{X: 4, Name: "t"}, "s"}, map[string]any{"k": &enctypes.S1{Sa: 5, Sb: "y"}}},
+			M:     map[string]any{"a": []any{&enctypes.S1{Sa: 1, Sb: "a"}}, "b": &enctypes.T{X: 2, Name: "b"}},
+			X:     []any{&enctypes.S1{Sa: 7, Sb: "z"}},
+		}, enctypes.L1{Items: []any{&enctypes.S1{}}, X: &enctypes.T{X: 1}})
+	}},
+	// `,string` mixed with plain numeric / bool members; tags that name another member
+	"Str1": {typ: reflect.TypeOf(enctypes.Str1{}), val: func(v string) any { return pick(v, enctypes.Str1{}, enctypes.Str1{A: 1, B: 2.5, C: true, D: 5}, enctypes.Str1{D: 5}) }},
+	"Str2": {typ: reflect.TypeOf(enctypes.Str2{}), val: func(v string) any {
+		return pick(v, enctypes.Str2{}, enctypes.Str2{D: 5, A: 1, C: true, B: 2.5, E: 1.5, F: true}, enctypes.Str2{A: 1, B: 2.5})
+	}},
+	"Col1": {typ: reflect.TypeOf(enctypes.Col1{}), tagsOnly: true, val: func(v string) any { return pick(v, enctypes.Col1{}, enctypes.Col1{Kind: "k", Type: "t"}, enctypes.Col1{Type: "t"}) }},
+	"Col2": {typ: reflect.TypeOf(enctypes.Col2{}), tagsOnly: true, val: func(v string) any { return pick(v, enctypes.Col2{}, enctypes.Col2{Id: 1, Num: 2, Z: 3}, enctypes.Col2{Num: 2}) }},
+	"Col3": {typ: reflect.TypeOf(enctypes.Col3{}), tagsOnly: true, val: func(v string) any {
+		return pick(v, enctypes.Col3{}, enctypes.Col3{Name: "n", Title: "t", Count: 1}, enctypes.Col3{Name: "n", Count: 2})
 	}},
 	// containers of struct VALUES with a zero-valued member in some element (a tag on the field must not reach the elements)
 	"[2]S": {typ: reflect.TypeOf([2]enctypes.S1{}), val: func(v string) any {
@@ -330,6 +370,11 @@ func canonFloat(f float64) string {
 	return strconv.FormatFloat(f, 'g', -1, 64)
 }
 
+// canon32: a float32 denotes its shortest float32 text (what strconv prints with bit size 32), not its float64 expansion
+func canon32(f float32) string {
+	return canonNum(strconv.FormatFloat(float64(f), 'g', -1, 32))
+}
+
 func project(rv reflect.Value) tvNode {
 	t := rv.Type()
 	if how := customHow(t); how != "" && t.Kind() != reflect.Interface {
@@ -350,7 +395,9 @@ func project(rv reflect.Value) tvNode {
 			g = "uint8"
 		}
 		return tvNode{"g": g, "s": strconv.FormatUint(rv.Uint(), 10), "name": namedScalar(t)}
-	case reflect.Float32, reflect.Float64:
+	case reflect.Float32:
+		return tvNode{"g": "float", "s": canon32(float32(rv.Float())), "name": namedScalar(t)}
+	case reflect.Float64:
 		return tvNode{"g": "float", "s": canonFloat(rv.Float()), "name": namedScalar(t)}
 	case reflect.String:
 		return tvNode{"g": "string", "s": rv.String(), "name": namedScalar(t)}
